@@ -27,7 +27,7 @@ VARIABLES l
 tvars == <<l>>
 Ev == Log[l]
 
-TraceInit == HWInit /\ l = 1
+TraceInit == HWInit /\ TLCSet(5, <<>>) /\ l = 1
 IsEvent(e) == l <= NLog /\ Ev.e = e /\ l' = l + 1
 
 AllTrue(n) == [i \in 1..n |-> TRUE]
@@ -76,9 +76,10 @@ ExprOK(e) ==
 Survey == "VERIF_SURVEY" \in DOMAIN IOEnv /\ IOEnv["VERIF_SURVEY"] = "1"
 
 TrReset == IsEvent("Reset")
-TrExpr == IsEvent("Expr") /\ (ExprOK(Ev) \/ (Survey /\ PrintT(<<"BAD-LINE", l>>))) = TRUE
+TrExpr == IsEvent("Expr") /\ (ExprOK(Ev) \/ (Survey /\ TLCSet(5, Append(TLCGet(5), l)))) = TRUE
 
 TraceNext == TrReset \/ TrExpr
 TraceSpec == TraceInit /\ [][TraceNext]_tvars
 HW == HWMark(l)
+AcceptedS == PrintT(<<"BAD-LINES", TLCGet(5)>>) /\ Accepted
 =============================================================================
